@@ -41,9 +41,6 @@ Proof.
 Qed.
 
 (* ---------- the coalition of a list of players ---------- *)
-Fixpoint sh_mask (p : list nat) : N :=
-  match p with [] => 0%N | j :: r => N.lor (single j) (sh_mask r) end.
-
 Lemma sh_tb_mask p j : tb (sh_mask p) j = true <-> In j p.
 Proof.
   induction p as [|a p IH]; cbn [sh_mask In].
@@ -230,3 +227,125 @@ Proof.
   rewrite (sh_qsum_count (fun p => N.eqb (sh_pred p i) S)). fold (sh_with_pred n i S).
   rewrite sh_count_with_pred by assumption. reflexivity.
 Qed.
+
+(* ================================================================== *)
+(* relabelling the players by ANY permutation, ALL n                   *)
+(* ================================================================== *)
+Lemma sh_tb_pull n pi T j : tb (sh_pull n pi T) j = true <-> (j < n)%nat /\ tb T (pi j) = true.
+Proof. unfold sh_pull. rewrite sh_tb_mask, filter_In, in_seq. intuition lia. Qed.
+
+Lemma sh_NoDup_map_inj {A B} (f : A -> B) l :
+  NoDup (map f l) -> forall x y, In x l -> In y l -> f x = f y -> x = y.
+Proof.
+  induction l as [|a l IH]; intros Hnd x y Hx Hy E; [destruct Hx|].
+  simpl in Hnd. inversion Hnd as [|? ? Ha Hl]; subst.
+  destruct Hx as [<-|Hx]; destruct Hy as [<-|Hy]; auto.
+  - exfalso. apply Ha. rewrite E. apply in_map. exact Hy.
+  - exfalso. apply Ha. rewrite <- E. apply in_map. exact Hx.
+Qed.
+
+Lemma sh_map_inj_on {A B} (f : A -> B) (q : list A) : forall q',
+  (forall x y, In x q -> In y q' -> f x = f y -> x = y) -> map f q = map f q' -> q = q'.
+Proof.
+  induction q as [|a q IH]; intros [|b q'] Hinj E; simpl in E; try discriminate; [reflexivity|].
+  inversion E as [[E1 E2]]. f_equal.
+  - apply Hinj; [left; reflexivity| left; reflexivity| exact E1].
+  - apply IH; [|exact E2]. intros x y Hx Hy. apply Hinj; right; assumption.
+Qed.
+
+Section Relabel.
+  Variable n : nat.
+  Variable pi : nat -> nat.
+  Hypothesis Hpi : Permutation (seq 0 n) (map pi (seq 0 n)).     (* pi permutes the players 0..n-1 *)
+
+  Lemma sh_pi_lt j : (j < n)%nat -> (pi j < n)%nat.
+  Proof.
+    intros Hj. assert (H : In (pi j) (seq 0 n)).
+    { apply (Permutation_in _ (Permutation_sym Hpi)). apply in_map. apply in_seq. lia. }
+    apply in_seq in H. lia.
+  Qed.
+
+  Lemma sh_pi_inj a b : (a < n)%nat -> (b < n)%nat -> pi a = pi b -> a = b.
+  Proof.
+    intros Ha Hb. apply (sh_NoDup_map_inj pi (seq 0 n)).
+    - apply (Permutation_NoDup Hpi). apply seq_NoDup.
+    - apply in_seq. lia.
+    - apply in_seq. lia.
+  Qed.
+
+  Lemma sh_perm_lt q j : Permutation (seq 0 n) q -> In j q -> (j < n)%nat.
+  Proof. intros Hq Hj. apply (Permutation_in _ (Permutation_sym Hq)) in Hj. apply in_seq in Hj. lia. Qed.
+
+  (* q |-> map pi q permutes the orderings *)
+  Lemma sh_perms_map_pi : Permutation (map (map pi) (sh_perms n)) (sh_perms n).
+  Proof.
+    apply NoDup_Permutation_bis.
+    - apply sh_NoDup_map_on; [|apply sh_perms_NoDup].
+      intros q q' Hq Hq' E. apply sh_perms_spec in Hq. apply sh_perms_spec in Hq'.
+      apply (sh_map_inj_on pi q q'); [|exact E].
+      intros x y Hx Hy. apply sh_pi_inj; [apply (sh_perm_lt q)| apply (sh_perm_lt q')]; assumption.
+    - rewrite map_length. apply Nat.le_refl.
+    - intros p Hp. apply in_map_iff in Hp. destruct Hp as [q [<- Hq]]. apply sh_perms_spec in Hq.
+      apply sh_perms_spec. eapply Permutation_trans; [exact Hpi| apply Permutation_map; exact Hq].
+  Qed.
+
+  Lemma sh_in_map_pi q j : (forall a, In a q -> (a < n)%nat) -> (j < n)%nat -> In (pi j) (map pi q) <-> In j q.
+  Proof.
+    intros Hq Hj. rewrite in_map_iff. split.
+    - intros [a [E Ha]]. assert (a = j) by (apply sh_pi_inj; auto). subst. exact Ha.
+    - intros H. exists j. split; [reflexivity| exact H].
+  Qed.
+
+  (* pulling back the predecessor coalitions along pi *)
+  Lemma sh_pull_pred q i : Permutation (seq 0 n) q -> (i < n)%nat ->
+    sh_pull n pi (sh_pred (map pi q) (pi i)) = sh_pred q i /\
+    sh_pull n pi (N.lor (sh_pred (map pi q) (pi i)) (single (pi i))) = N.lor (sh_pred q i) (single i).
+  Proof.
+    intros Hq Hi.
+    assert (Hin : In i q) by (apply (Permutation_in _ Hq); apply in_seq; lia).
+    apply in_split in Hin. destruct Hin as [q1 [q2 ->]].
+    assert (Hnd : NoDup (q1 ++ i :: q2)) by (apply (Permutation_NoDup Hq), seq_NoDup).
+    destruct (sh_NoDup_app_inv _ _ Hnd) as [_ [_ Hdis]].
+    assert (Hi1 : ~ In i q1) by (intro H; apply (Hdis i H); left; reflexivity).
+    assert (Hq1 : forall a, In a q1 -> (a < n)%nat).
+    { intros a Ha. apply (sh_perm_lt _ a Hq). apply in_or_app. left. exact Ha. }
+    assert (Hpi1 : ~ In (pi i) (map pi q1)) by (rewrite sh_in_map_pi; assumption).
+    rewrite map_app. cbn [map]. rewrite !sh_pred_app by assumption.
+    split; apply bits_inj_nat; intro j; apply eq_iff_eq_true; rewrite sh_tb_pull.
+    - rewrite !sh_tb_mask. split.
+      + intros [Hj H]. apply (proj1 (sh_in_map_pi q1 j Hq1 Hj)). exact H.
+      + intros H. pose proof (Hq1 j H) as Hj. split; [exact Hj| apply (proj2 (sh_in_map_pi q1 j Hq1 Hj)); exact H].
+    - rewrite !tb_lor, !orb_true_iff, !tb_single, !Nat.eqb_eq, !sh_tb_mask. split.
+      + intros [Hj [H|H]].
+        * left. apply (proj1 (sh_in_map_pi q1 j Hq1 Hj)). exact H.
+        * right. apply sh_pi_inj; assumption.
+      + intros [H|<-].
+        * pose proof (Hq1 j H) as Hj. split; [exact Hj| left; apply (proj2 (sh_in_map_pi q1 j Hq1 Hj)); exact H].
+        * split; [exact Hi| right; reflexivity].
+  Qed.
+
+  Theorem sh_relabel_all i g : (i < n)%nat ->
+    sh_player n (pi i) (sh_relabel_by n pi g) == sh_player n i g.
+  Proof.
+    intros Hi. rewrite (sh_is_perm_avg_all n (pi i)) by (apply sh_pi_lt; exact Hi).
+    rewrite (sh_is_perm_avg_all n i g Hi). unfold sh_perm_avg. apply Qdiv_comp; [|reflexivity].
+    rewrite <- (sh_qsum_perm _ _ (Permutation_map (fun p => sh_marg (sh_relabel_by n pi g) p (pi i)) sh_perms_map_pi)).
+    rewrite map_map. apply qsum_map_ext. intros q Hq. apply sh_perms_spec in Hq.
+    unfold sh_marg, sh_relabel_by. destruct (sh_pull_pred q i Hq Hi) as [-> ->]. reflexivity.
+  Qed.
+
+  (* what sh_relabel_by means: the coalition pi(S) = { pi j | j in S } gets the value g S *)
+  Lemma sh_pull_image S : bounded n S -> sh_pull n pi (sh_mask (map pi (players n S))) = S.
+  Proof.
+    intros Hb. apply bits_inj_nat. intro j. apply eq_iff_eq_true. rewrite sh_tb_pull, sh_tb_mask.
+    assert (Hpl : forall a, In a (players n S) -> (a < n)%nat) by (intros a Ha; apply sh_in_players in Ha; tauto).
+    split.
+    - intros [Hj H]. apply (proj1 (sh_in_map_pi (players n S) j Hpl Hj)) in H. apply sh_in_players in H. tauto.
+    - intros Ht. assert (Hj : (j < n)%nat).
+      { destruct (Nat.lt_ge_cases j n) as [H|H]; [exact H|]. rewrite (Hb j H) in Ht. discriminate. }
+      split; [exact Hj|]. apply (proj2 (sh_in_map_pi (players n S) j Hpl Hj)). apply sh_in_players. tauto.
+  Qed.
+
+  Lemma sh_relabel_by_image g S : bounded n S -> sh_relabel_by n pi g (sh_mask (map pi (players n S))) = g S.
+  Proof. intros Hb. unfold sh_relabel_by. rewrite sh_pull_image by exact Hb. reflexivity. Qed.
+End Relabel.
